@@ -206,8 +206,12 @@ func init() {
 
 	// ---- time ----
 	nowFn := func(m *Machine, fr *frame, a []Value) Value {
-		// nondecreasing nondeterministic instants (seconds since 1970 in [2^30, 2^32))
 		m.nowSeq++
+		if m.opts["symbolic-clock"] == 0 {
+			// default clock: a fixed instant advancing by one second per reading
+			return Tuple{BV(64, uint64(1700000000+m.nowSeq)), BV(32, 0), BV(64, 0)}
+		}
+		// nondecreasing nondeterministic instants (seconds since 1970 in [2^30, 2^32))
 		in := m.path.NewInput("now-sec", "env-int64", SBV(64))
 		lo := BVCmp(OpBVSle, BV(64, 1<<30), in.T)
 		hi := BVCmp(OpBVSlt, in.T, BV(64, 1<<32))
@@ -240,6 +244,31 @@ func init() {
 		d1 := BV(64, uint64(d.S()/1000000000))
 		r := BVBin(OpBVSRem, ext, d1)
 		return Struct{wall, BVBin(OpBVSub, ext, r), t[2]}
+	})
+	reg(vrtPath+".SymbolicClock", func(m *Machine, fr *frame, a []Value) Value { m.opts["symbolic-clock"] = 1; return nil })
+	// timers never fire on their own: time-triggered behaviour is driven explicitly by the harness
+	reg("time.NewTicker", func(m *Machine, fr *frame, a []Value) Value {
+		m.chanN++
+		var cell Value = Struct{&Chan{id: m.chanN, cap: 1}, TFalse}
+		return &cell
+	})
+	reg("(*time.Ticker).Stop", func(m *Machine, fr *frame, a []Value) Value { return nil })
+	reg("(*time.Ticker).Reset", func(m *Machine, fr *frame, a []Value) Value { return nil })
+	reg("time.NewTimer", func(m *Machine, fr *frame, a []Value) Value {
+		m.chanN++
+		var cell Value = Struct{&Chan{id: m.chanN, cap: 1}, TFalse}
+		return &cell
+	})
+	reg("(*time.Timer).Stop", func(m *Machine, fr *frame, a []Value) Value { return TTrue })
+	reg("(*time.Timer).Reset", func(m *Machine, fr *frame, a []Value) Value { return TTrue })
+	reg("time.AfterFunc", func(m *Machine, fr *frame, a []Value) Value {
+		m.chanN++
+		var cell Value = Struct{(*Chan)(nil), TFalse}
+		return &cell
+	})
+	reg("time.After", func(m *Machine, fr *frame, a []Value) Value {
+		m.chanN++
+		return &Chan{id: m.chanN, cap: 1}
 	})
 	reg("time.runtimeNano", func(m *Machine, fr *frame, a []Value) Value { return BV(64, 1) })
 	reg("time.Sleep", func(m *Machine, fr *frame, a []Value) Value { m.yield(); return nil })
